@@ -123,6 +123,7 @@ VARIANTS = {
   fault('opener-flag-swapped', F(CT, 'Delimiter.__init__', 'self.open = is_opener(start, end, string)', 'self.open = is_closer(start, end, string)'), 'R-FLANK-WIRED'),
  ],
  'C07': [
+  fault('definition-scan-from-first-bracket', F(BT, 'Footnote.read', '        offset = 0\n', "        offset = string.index('[')\n"), 'R-DEF-ROWS'),
   fault('definition-scan-stops-at-bare-newline', F(BT, 'Footnote.read', "while next_line is not None and next_line.strip() != '':", "while next_line is not None and next_line != '\\n':"), 'R-DEF-ACCOUNT'),
   fault('definition-values-stdlib-unescape', F(ST, 'EscapeSequence.strip', "return tokenizer.unescape(cls.pattern.sub(r'\\1', string))", "return __import__('html').unescape(cls.pattern.sub(r'\\1', string))"), 'R-DEF-VALUE'),
   fault('label-lowercased', F(CT, 'normalize_label', "return ' '.join(text.split()).casefold()", "return ' '.join(text.split()).lower()"), 'R-LABEL-AGREE'),
@@ -213,6 +214,8 @@ VARIANTS = {
   fault('ast-skips-header', F(AR, 'get_ast', "    if 'header' in vars(token):\n        node['header'] = get_ast(getattr(token, 'header'))\n", ''), 'R-REPR-ATTRS'),
  ],
  'C13': [
+  fault('line-numbers-zipped-after-filtering', F(BK, 'make_tokens', "    tokens = []\n    for token_type, result, line_number in parse_buffer:\n        token = token_type(result)\n        if token is not None:\n            token.line_number = line_number\n            tokens.append(token)\n",
+                                                 "    tokens = [token_type(result) for token_type, result, _ in parse_buffer]\n    tokens = [token for token in tokens if token is not None]\n    for token, (_, _, line_number) in zip(tokens, parse_buffer):\n        token.line_number = line_number\n"), 'R-CAPTURE'),
   fault('blank-first-item-origin', F(BT, 'ListItem.read', "            content_start_line += 1\n", ''), 'R-ORIGIN'),
   fault('quote-origin-plus-one', F(BT, 'Quote.read', "        start_line = lines.line_number()\n", "        start_line = lines.line_number() + 1\n"), 'R-ORIGIN'),
   fault('capture-after-read', F(BK, 'tokenize_block', "                line_number = lines.line_number() + 1\n                result = token_type.read(lines)\n", "                result = token_type.read(lines)\n                line_number = lines.line_number() + 1\n"), 'R-CAPTURE'),
